@@ -367,7 +367,7 @@ Definition ch_insert (s : state) (o : obj) (i : Z) (t : option obj) : state * ou
   end.
 
 (* children.sort(key, reverse) *)
-Inductive sort_key := KId | KPrio | KName | KBad.
+Inductive sort_key := KId | KPrio | KName | KBad | KEst.
 Inductive keyv := VZ (z : Z) | VT (t : list Z).
 
 Fixpoint lex_leb (a b : list Z) : bool :=
@@ -390,6 +390,7 @@ Definition key_of (k : sort_key) (T : task) : res keyv :=
   | KPrio => match prio T with Some v => Ok (VZ v) | None => Crash AttributeError end
   | KName => Ok (VT (name T))
   | KBad => Err
+  | KEst => Ok (VZ (match est T with Some v => v | None => 0 end))   (* None: see none_clash *)
   end.
 
 Fixpoint keys_of (k : sort_key) (h : heap) (l : list obj) : res (list (keyv * obj)) :=
@@ -405,7 +406,18 @@ Fixpoint ins_sorted (leb : keyv -> keyv -> bool) (x : keyv * obj) (l : list (key
   end.
 Definition stable_sort (leb : keyv -> keyv -> bool) (l : list (keyv * obj)) := fold_right (ins_sorted leb) [] l.
 
+(* sorting by an attribute that every child has but whose value is None for some of them (the
+   estimate): sorted() compares every element with at least one other as soon as there are two, and a
+   comparison with None raises TypeError - before the list is touched *)
+Definition est_is_none (h : heap) (x : obj) : bool := match est (get h x) with None => true | Some _ => false end.
+Definition none_clash (s : state) (o : obj) (k : sort_key) : bool :=
+  match k with
+  | KEst => (2 <=? length (kids (get (hp s) o)))%nat && existsb (est_is_none (hp s)) (kids (get (hp s) o))
+  | _ => false
+  end.
+
 Definition ch_sort (s : state) (o : obj) (k : sort_key) (reverse : bool) : state * outcome :=
+  if none_clash s o k then (s, Crash TypeError) else
   match k with
   | KBad => (s, Err)                                           (* unsupported key type *)
   | _ =>
